@@ -93,6 +93,24 @@ static void narrow_chains(void){ static const int shapes[][3]={{8,4,0},{6,3,0},{
       free((void*)a.cnt); }
     for(int l=0;l<3;l++) if(lv[l]){ __block atomic_int ran=0; atomic_int *rp=&ran; dispatch_barrier_async(lv[l],^{ atomic_store(rp,1); }); for(int w=0; w<5000 && !atomic_load(&ran); w++) usleep(1000);
       if(!atomic_load(&ran) && !viol) fail("a barrier item submitted to a width-limited queue after dispatch_apply calls through it never ran (5 s): shape/level",(long)k,l,0); } } }
+// ---- an apply with a single participant (one iteration, or more with every other thread of the machine already taken by enclosing
+// applies): its invocations are still items of the queue - not before a running barrier item has finished, not while the queue is
+// suspended, not while the serial queue the concurrent queue targets runs another item.
+struct sp { dispatch_queue_t q; size_t n; _Atomic int ran, returned; };
+static void sp_work(void *c, size_t i){ (void)i; struct sp *x=c; atomic_fetch_add(&invocations,1); atomic_fetch_add(&x->ran,1); }
+static void *sp_thread(void *a){ struct sp *x=a; dispatch_apply_f(x->n,x->q,x,sp_work); atomic_store(&x->returned,1); return 0; }
+static void single_participant(void){ for(int rep=0; rep<2 && !viol; rep++) for(int sc=0; sc<3 && !viol; sc++){ size_t n = rep ? 1 : 1+(size_t)(rnd()%2);
+    dispatch_queue_t s=dispatch_queue_create("sp.s",NULL), q = sc==2 ? dispatch_queue_create_with_target("sp.c",DISPATCH_QUEUE_CONCURRENT,s) : dispatch_queue_create("sp.c",DISPATCH_QUEUE_CONCURRENT);
+    __block _Atomic int gate=0, inside=0; _Atomic int *gp=&gate, *ip=&inside; struct sp x; memset(&x,0,sizeof x); x.q=q; x.n=1; (void)n;
+    if(sc==0){ dispatch_barrier_async(q,^{ atomic_store(ip,1); for(int w=0; w<40000 && !atomic_load(gp); w++) usleep(50); }); for(int w=0; w<40000 && !atomic_load(&inside); w++) usleep(50); }
+    else if(sc==1) dispatch_suspend(q);
+    else { dispatch_async(s,^{ atomic_store(ip,1); for(int w=0; w<40000 && !atomic_load(gp); w++) usleep(50); }); for(int w=0; w<40000 && !atomic_load(&inside); w++) usleep(50); }
+    pthread_t t; pthread_create(&t,0,sp_thread,&x); usleep(20000);
+    if(atomic_load(&x.ran) || atomic_load(&x.returned)) fail("a dispatch_apply of one iteration on a concurrent queue invoked its work (or returned) while the queue could not run items: 0 a barrier item was running, 1 the queue was suspended, 2 the serial queue it targets was running another item / invocations / returned",sc,atomic_load(&x.ran),atomic_load(&x.returned));
+    if(sc==1) dispatch_resume(q); else atomic_store(&gate,1);
+    for(int w=0; w<5000 && !atomic_load(&x.returned); w++) usleep(1000);
+    if(!viol && (!atomic_load(&x.returned) || atomic_load(&x.ran)!=1)) fail("a dispatch_apply of one iteration did not complete with exactly one invocation after the queue could run items again: scenario / invocations / returned",sc,atomic_load(&x.ran),atomic_load(&x.returned));
+    if(!viol){ pthread_join(t,0); dispatch_barrier_sync(q,^{}); dispatch_release(q); dispatch_release(s); } } }
 int main(int argc,char**argv){ seed=argc>1?strtoull(argv[1],0,0):1; rounds=argc>2?atoi(argv[2]):40; ncpu=(int)sysconf(_SC_NPROCESSORS_ONLN);
   evs=calloc(MAXEV,sizeof *evs);
   QS=dispatch_queue_create("s",NULL); QC=dispatch_queue_create("c",DISPATCH_QUEUE_CONCURRENT);
@@ -102,6 +120,7 @@ int main(int argc,char**argv){ seed=argc>1?strtoull(argv[1],0,0):1; rounds=argc>
   QCM=dispatch_queue_create_with_target("cm",DISPATCH_QUEUE_CONCURRENT,dispatch_get_main_queue()); int mh=_dispatch_get_main_queue_handle_4CF();
   _dispatch_verif_yield_cb=ycb; _dispatch_verif_atomic_cb=cb;
   narrow_chains();
+  single_participant();
   struct sigaction sa; memset(&sa,0,sizeof sa); sa.sa_handler=on_usr1; sigaction(SIGUSR1,&sa,0);
   pthread_t th[4]; int nt=3; for(int i=0;i<nt;i++){ pthread_create(&th[i],0,client,0); cl_th[i]=th[i]; } cl_n=nt;
   pthread_t pg; pthread_create(&pg,0,pinger,0);
